@@ -52,6 +52,7 @@ type divergence struct{ msg string }
 
 // Exec is one execution.
 type Exec struct {
+	pmu     sync.Mutex // guards points against the hang monitor, which reads them from outside the bubble
 	prefix  []Pick
 	points  []point
 	viol    []Violation
@@ -93,7 +94,9 @@ func (x *Exec) Choose(alts []Alt) int {
 			c = p.Idx
 		}
 	}
+	x.pmu.Lock()
 	x.points = append(x.points, point{alts: append([]Alt{}, alts...), chosen: c})
+	x.pmu.Unlock()
 	x.Logf("choose[%d] %s", i, alts[c].Label)
 	return c
 }
@@ -119,6 +122,8 @@ func Now() time.Duration { return time.Since(epoch) }
 
 // Picks returns the full choice vector of the execution.
 func (x *Exec) Picks() []Pick {
+	x.pmu.Lock()
+	defer x.pmu.Unlock()
 	out := make([]Pick, len(x.points))
 	for i, p := range x.points {
 		out[i] = Pick{p.chosen, p.alts[p.chosen].Label}
@@ -172,8 +177,81 @@ func (e *Explorer) Flaky() map[string]int { e.mu.Lock(); defer e.mu.Unlock(); re
 
 // runOne executes one vector in a fresh bubble. leaked reports goroutines left
 // blocked when the director returned.
+// Hang detection. A goroutine that waits for a sync.Mutex / RWMutex is not "durably blocked" for a bubble, so an
+// execution in which the code under test deadlocks on a lock never comes to rest: synctest.Wait does not return and
+// the whole check would sit there until its wall-clock limit. WatchHangs starts a monitor (outside every bubble) that
+// looks at the running executions every 2 s and calls onHang for one it has seen running in `passes` consecutive
+// looks (passes of the monitor, not wall-clock time: a suspended process does not age an execution). Executions
+// normally last milliseconds. onHang is expected to report and end the process; it is called at most once.
+func WatchHangs(passes int, onHang func(explorer string, picks []Pick)) {
+	hangOnce.Do(func() {
+		go func() {
+			for {
+				time.Sleep(2 * time.Second)
+				var hit *liveExec
+				liveMu.Lock()
+				for le := range live {
+					le.seen++
+					if le.seen >= passes && hit == nil {
+						hit = le
+					}
+				}
+				liveMu.Unlock()
+				if hit != nil {
+					onHang(hit.name, hit.x.Picks())
+					return
+				}
+			}
+		}()
+	})
+}
+
+// Reporter is the part of engine/rep a hang report needs.
+type Reporter interface {
+	Capped(string)
+	Violation(sig, desc string, cs any)
+	Finish()
+}
+
+// ReportHangs turns an execution that has not come to rest after 90 looks of the monitor (3 minutes of its running
+// time) into a violation and ends the run.
+func ReportHangs(r Reporter) {
+	WatchHangs(90, func(name string, picks []Pick) {
+		var ls []string
+		for _, p := range picks {
+			ls = append(ls, p.Label)
+		}
+		r.Capped("stopped: an execution never came to rest")
+		r.Violation("execution-never-comes-to-rest",
+			fmt.Sprintf("scenario %q: after the choices [%s] the execution did not come to rest for 3 minutes. Time, channels and every gated call are owned by the harness and cannot cause this: some goroutine waits for a lock that is never released (or spins)", name, strings.Join(ls, "; ")),
+			map[string]any{"scenario": name, "choices": picks})
+		r.Finish()
+	})
+}
+
+type liveExec struct {
+	name string
+	x    *Exec
+	seen int
+}
+
+var (
+	hangOnce sync.Once
+	liveMu   sync.Mutex
+	live     = map[*liveExec]bool{}
+)
+
 func (e *Explorer) runOne(t *testing.T, prefix []Pick, trace bool) (x *Exec, div *divergence, leaked bool, crash string) {
 	x = &Exec{prefix: prefix, noTrace: !trace}
+	le := &liveExec{name: e.Name, x: x}
+	liveMu.Lock()
+	live[le] = true
+	liveMu.Unlock()
+	defer func() {
+		liveMu.Lock()
+		delete(live, le)
+		liveMu.Unlock()
+	}()
 	func() {
 		defer func() {
 			if r := recover(); r != nil {
